@@ -65,6 +65,8 @@ VERIFY_RULE = ("abstract cases enumerated by TLC from spec/VerifyCases.tla (poin
 
 @check("C01")
 def c01(ctx):
+    # CofactorEqual = "equal up to torsion" for every pair of points of a small curve of edwards25519's shape, in every scaling
+    model_check(ctx, "MCGroupLaw.tla", "MCGroupLaw_formulas_t.cfg" if ctx.thorough else "MCGroupLaw_formulas.cfg")
     verify_family(ctx, ["MCVerify_quick.cfg"] if not ctx.thorough else ["MCVerify_quick.cfg", "MCVerify_thorough.cfg"])
     finish(ctx, VERIFY_RULE, ASSUME_COMMON)
 
@@ -88,6 +90,8 @@ def c05(ctx):
 
 @check("C09")
 def c09(ctx):
+    # IsNeutral([8]P) <=> the order of P divides 8, for every point of a small curve of edwards25519's shape, in every scaling
+    model_check(ctx, "MCGroupLaw.tla", "MCGroupLaw_formulas_t.cfg" if ctx.thorough else "MCGroupLaw_formulas.cfg")
     verify_family(ctx, ["MCVerify_quick.cfg"])
     batch_extra(ctx)      # small-order / mixed-order / undecodable key and R at every position of every chunking
     curve_family(ctx)     # mul8 events: [8]P for decodable strings of unknown discrete log, audited projection
